@@ -13,8 +13,10 @@ mod gen;
 mod prop;
 mod props;
 mod rng;
+mod scen;
 mod seam;
 mod shrink;
+mod sqlgen;
 mod util;
 mod world;
 
